@@ -30,9 +30,9 @@ func vhIndexLess(a, b vhRow, desc bool) bool {
 // n rows; the index order is a permutation chosen by the harness (order[i] =
 // row number of the i-th index entry) and ASSUMED to be the sorted order, so the
 // solver ranges over all value assignments consistent with it.
-var vhTableSQL = "CREATE TABLE t (a, b)"
+const vhDefaultTableSQL = "CREATE TABLE t (a, b)"
 
-func vhBuildIndexed(n int, split bool, desc bool, perm []int) *vhIdxDB {
+func vhBuildIndexed(n int, split bool, desc bool, perm []int, tableSQL string) *vhIdxDB {
 	d := &vhIdxDB{f: sdb.VerifNewFile(512), desc: desc, order: perm}
 	f := d.f
 	troot, iroot := f.AddPage(), f.AddPage()
@@ -41,7 +41,7 @@ func vhBuildIndexed(n int, split bool, desc bool, perm []int) *vhIdxDB {
 		sqlIdx = "CREATE INDEX i ON t (b DESC)"
 	}
 	f.Master([]sdb.VerifMasterRow{
-		{Typ: "table", Name: "t", Tbl: "t", Root: troot, SQL: vhTableSQL},
+		{Typ: "table", Name: "t", Tbl: "t", Root: troot, SQL: tableSQL},
 		{Typ: "index", Name: "i", Tbl: "t", Root: iroot, SQL: sqlIdx},
 	})
 	leaves := 1
@@ -84,14 +84,22 @@ func vhBuildIndexed(n int, split bool, desc bool, perm []int) *vhIdxDB {
 var vhPerms2 = [][]int{{0, 1}, {1, 0}}
 var vhPerms4 = [][]int{{0, 1, 2, 3}, {3, 2, 1, 0}, {1, 3, 0, 2}, {2, 0, 3, 1}, {0, 2, 1, 3}, {3, 0, 2, 1}}
 
-func vhSetup() (*vhIdxDB, *DB) {
+func vhSetup() (*vhIdxDB, *DB) { return vhSetupWith(false, vhDefaultTableSQL) }
+
+// vhSetupWith: smallOnly restricts to the 2-row shape (harnesses that run
+// several operations per path in the quick tier); tableSQL is t's definition.
+func vhSetupWith(smallOnly bool, tableSQL string) (*vhIdxDB, *DB) {
 	var d *vhIdxDB
 	desc := sdb.VerifBool()
-	switch sdb.VerifChoice(2) {
+	shape := 0
+	if !smallOnly {
+		shape = sdb.VerifChoice(2)
+	}
+	switch shape {
 	case 0:
-		d = vhBuildIndexed(2, false, desc, vhPerms2[sdb.VerifChoice(2)])
+		d = vhBuildIndexed(2, false, desc, vhPerms2[sdb.VerifChoice(2)], tableSQL)
 	default:
-		d = vhBuildIndexed(4, true, desc, vhPerms4[sdb.VerifChoice(len(vhPerms4))])
+		d = vhBuildIndexed(4, true, desc, vhPerms4[sdb.VerifChoice(len(vhPerms4))], tableSQL)
 	}
 	h, err := d.f.Open()
 	sdb.VerifNoErr(err, "valid file opens")
@@ -109,6 +117,7 @@ func vhRowIs(r Row, want vhRow) bool {
 }
 
 //verif:bounds rowid table t(a,b) with index on b (ASC/DESC): 2 rows in single leaves, or 4 rows over interior+2 leaves for table and index (one entry in the interior index page); 2 resp. 6 index-order permutations; values any int64 consistent with the chosen index order
+//verif:prop C02,C20
 func VH_C02_indexed_select() {
 	d, db := vhSetup()
 	var got []Row
